@@ -1,0 +1,14 @@
+//go:build verif
+
+// Contracts for the deductive verification in /verif (comment-only; compiled code is unaffected).
+package peers
+
+//@ iface Service.Peer(self, id)
+//@ ensures result1 == nil ==> result0 != nil
+//@ iface Service.All(self)
+//@ flag noalloc
+//@ ensures result == peersAll(self)
+//@ iface Service.Suitable(self, threshold)
+//@ ensures result1 == nil ==> len(result0) >= threshold
+
+//@ spec peersAll(p any) map[uint64]*core.Endpoint
